@@ -419,6 +419,10 @@ func (e *Engine) registerEnvIntrinsics(pkgPath string) {
 	reg("vrtCertText", func(x *Exec, fr *frame, a []Value) Value {
 		s := x.sym(x.symName(a), SStr)
 		x.setAttr(s, "certtext")
+		// a text marked valid is plain base64 (natively: one of the fixed test certificates), without PEM armour
+		valid := x.sym(s.S+".valid", SBool)
+		nows := UF("nows", s)
+		x.assume(Implies(valid, And(Not(Eq(s, StrC(""))), Not(SuffixOf(StrC("-----ENDCERTIFICATE-----"), nows)), Not(PrefixOf(StrC("-----BEGINCERTIFICATE-----"), nows)))))
 		return s
 	})
 	reg("vrtIdPKeyPair", func(x *Exec, fr *frame, a []Value) Value {
